@@ -317,6 +317,18 @@ def corpus():
     C.append(G("fall_rec", ["+", "(", ")", "x"], {
         "S": [(["S", "+", "T"], ["fallible"]), (["T"], ["fallible"])],
         "T": [(["x"], ["fallible"]), ["(", "S", ")"], (["!"], ["fallible"])]}))
+    # a fallible production that `!` can follow: it is reduced with `!` as lookahead when recovery starts,
+    # and its error must come back verbatim also then (with a pending lookahead token, and at end of input)
+    C.append(G("fall_rec_after", ["x", "y", "z", ";"], {
+        "P": [["Ss"]],
+        "Ss": [["St"], ["Ss", "St"]],
+        "St": [["E", ";"], ["E", "!", ";"]],
+        "E": [(["x"], ["fallible"]), (["x", "y"], ["fallible"])]}))
+    C.append(G("fall_rec_after2", ["n", ";", "q"], {
+        "S": [["T"], ["S", "T"]],
+        "T": [["N", "End"]],
+        "N": [(["n"], ["fallible"])],
+        "End": [[";"], ["!"]]}))
     C.append(G("fall_eps", ["a", "b"], {
         "S": [["A", "B"]],
         "A": [([], ["fallible"]), (["a", "A"], ["fallible"])],
